@@ -8,6 +8,10 @@ VERIF = os.path.dirname(os.path.dirname(os.path.abspath(__file__)))
 E2_NOTE = ("Trusted: rustc/std, the reference renderer R and typed operator table in vlib (boring, transcribed from the README), "
            "vrt's driver. Bounded: chains/profiles/operands beyond the enumerated bound are not covered.")
 
+E3T_NOTE = ("Trusted: rustc/std, the baton scheduler rt/vsched (self-tested on every run: 90 orders of the 3x2 multinomial program, identical replay) "
+            "and the vstd shim that makes the unmodified expansion's ::std::thread resolve to it; sequential consistency at visible operations "
+            "(the expansion is safe Rust whose threads communicate only through spawn arguments and join results). Bounded by the enumerated programs.")
+
 CLAIMED = {
     "C01": dict(
         category="exploration",
@@ -16,6 +20,54 @@ CLAIMED = {
         design_ref="DESIGN.md §4 C01, §2.1-2.4",
         note=E2_NOTE,
         engine="E2",
+    ),
+    "C03": dict(
+        category="model_checking",
+        technique="stateless model checking of the generated code: exhaustive enumeration of all orders of visible operations under a controlled (baton) thread scheduler, per depth profile",
+        text="For every depth profile and thread-spawning macro the real expansion is executed under every order of visible operations (callbacks, operands, captures); in every execution no step-(k+1) event precedes a step-k event and every branch continues from its own value. Sequential macros are decided by exact trace equality in the C04-C06 families.",
+        design_ref="DESIGN.md §4 C03, §2.5",
+        note=E3T_NOTE,
+        engine="E3-T",
+    ),
+    "C04": dict(
+        category="exploration",
+        technique="bounded exhaustive enumeration of depth profiles x macro kinds x handler/let modes; real macros vs reference tuple (differential)",
+        text="All depth profiles up to the bound in all eight macro kinds with/without handler and let names; every branch encodes (branch, steps) in its value, so any misrouted position changes the result; compared with the reference on every row.",
+        design_ref="DESIGN.md §4 C04",
+        note=E2_NOTE,
+        engine="E2",
+    ),
+    "C05": dict(
+        category="fault_enumeration",
+        technique="exhaustive fault enumeration: every subset of failing (branch, step) positions over every depth profile, real macros vs reference; thread-spawning kinds additionally under every schedule (baton scheduler)",
+        text="Every subset of (branch, step) positions is made to fail in every profile program of the six try macros (Result and Option); the macro's value must be the reference's (lowest-numbered failing branch of the earliest failing step, payload unchanged; async: any branch failing in that step). For try_join_spawn!/try_spawn! small profiles are additionally run under every order of visible operations.",
+        design_ref="DESIGN.md §4 C05",
+        note=E2_NOTE + " " + E3T_NOTE,
+        engine="E2+E3-T",
+    ),
+    "C06": dict(
+        category="fault_enumeration",
+        technique="exhaustive fault enumeration with a trace oracle: every failure subset x every profile, event trace of the real macros vs the reference; thread kinds under every schedule",
+        text="Same programs and rows as C05; every step >= 1 carries a block capture, an error-side callback and a non-closure operand, so anything evaluated after a failed step (or a handler call) is visible in the trace, as is a failing step that was not run to its end in sync/spawn kinds.",
+        design_ref="DESIGN.md §4 C06",
+        note=E2_NOTE + " " + E3T_NOTE,
+        engine="E2+E3-T",
+    ),
+    "C08": dict(
+        category="model_checking",
+        technique="stateless model checking of the generated code under a controlled thread scheduler: all orders of visible operations, invariants on thread identity/liveness in every execution",
+        text="The unmodified expansion of the four thread-spawning macros runs on real OS threads under a baton scheduler that enumerates every order of visible operations, for every depth profile, three caller names and nested macros; every execution must be deadlock-free, use the documented thread names (real thread::current().name()), one distinct thread per active branch, the caller's thread for single-branch steps, and the caller may act only when all threads of the step have finished.",
+        design_ref="DESIGN.md §4 C08, §2.5",
+        note=E3T_NOTE,
+        engine="E3-T",
+    ),
+    "C18": dict(
+        category="fault_enumeration",
+        technique="exhaustive fault injection (every single panic position, crossed with failure subsets) x all schedules under the controlled thread scheduler",
+        text="A panic is injected at every single (branch, step) position (for small try programs on top of every failure subset) and the real expansion is run under every order of visible operations: the panic must surface on the caller, nothing of a later step may run, no deadlock.",
+        design_ref="DESIGN.md §4 C18",
+        note=E3T_NOTE + " Async/task-spawning variants are added with the E3-A engine.",
+        engine="E3-T",
     ),
 }
 
@@ -54,8 +106,10 @@ def main():
             "add_only": True,
         },
         "engines": [
-            {"name": "E2", "path": "vlib/e2.py + rt/vrt", "serves_properties": sorted(k for k, v in CLAIMED.items() if v["engine"].startswith("E2")),
+            {"name": "E2", "path": "vlib/e2.py + rt/vrt", "serves_properties": sorted(k for k, v in CLAIMED.items() if "E2" in v["engine"]),
              "kind_free_text": "compile-and-run differential explorer: exhaustively enumerated DSL programs x input tables, real macros vs in-binary reference"},
+            {"name": "E3-T", "path": "vlib/e3t.py + rt/vsched + rt/vstd", "serves_properties": sorted(k for k, v in CLAIMED.items() if "E3-T" in v["engine"]),
+             "kind_free_text": "stateless model checker for the thread-spawning expansions: baton scheduler over real OS threads, DFS over all orders of visible operations, re-execution from choice prefixes"},
         ],
         "checks": checks,
         "notes": "Exit codes: 0 held on everything explored; 1 violation (VIOLATION line); 2 machinery error (never a verdict). VERIF_REPO overrides /repo. See DESIGN.md.",
